@@ -25,8 +25,11 @@ func c10alphabet() []dop {
 	add("subs.Create(s2,m/a/b)", func(n *dnode) { n.st.Subscriptions().Create("s2", []byte("m/a/b"), 1) })
 	add("topics.Set(m/t)", func(n *dnode) { n.st.Topics().Set(pub("m/t", "from-"+n.name)) })
 	add("topics.Delete(m/t)", func(n *dnode) { n.st.Topics().Delete([]byte("m/t")) })
-	add("topics.Set(m/t/u)", func(n *dnode) { n.st.Topics().Set(pub("m/t/u", "from-"+n.name)) })
 	add("subs.Create(s2,m/a)", func(n *dnode) { n.st.Subscriptions().Create("s2", []byte("m/a"), 2) })
+	// bulk removals: what the other node hosts (a failure verdict on it), and everything of one session
+	add("subs.DeletePeer(other node)", func(n *dnode) { n.st.Subscriptions().DeletePeer(3 - n.peer) })
+	add("subs.DeleteSession(s1)", func(n *dnode) { n.st.Subscriptions().DeleteSession("s1") })
+	add("topics.Set(m/t/u)", func(n *dnode) { n.st.Topics().Set(pub("m/t/u", "from-"+n.name)) })
 	return ops
 }
 
@@ -48,7 +51,7 @@ func histories(n, max int) [][]int {
 
 func TestC10FullState(t *testing.T) {
 	ops := c10alphabet()
-	nops := vk.Pick(9, 10)
+	nops := vk.Pick(11, 12)
 	ops = ops[:nops]
 	maxA, maxB := 3, vk.Pick(1, 2)
 	shardedPhase(t, "C10", "C10/full-state-exchange", "E1-enum", "TestC10FullState", func(sh vk.Shard, rep *vk.Report) {
